@@ -103,6 +103,37 @@ def r3_silent(ctx, F):
                   good='%s arm applies no commands' % v, bad='next_state: %s arm applies commands' % v)
 
 
+def r4_budget_is_configured_value(ctx, F):
+    """the budget the checks above compare with is the one the user configured: the builder stores its parameter,
+    and nothing else writes the field (a budget adjusted against what the builder has seen so far - the actors
+    added before the call - depends on the order of the builder calls)"""
+    from common import stores_to_field
+    setters = [x for x in F.bodies.values() if x.kind != 'Closure' and
+               x.path.startswith('actor::model::ActorModel::<') and x.path.endswith('::max_crashes')]
+    if len(setters) != 1:
+        raise AnchorMissing('ActorModel::max_crashes builder (found %d)' % len(setters))
+    b = setters[0]
+    ctx.touched(b)
+    st = stores_to_field(b, 'max_crashes')
+    ok = len(st) == 1 and st[0][1]['rv']['k'] == 'use' and noref(b.val(st[0][1]['rv']['op'])) == V('arg', 2)
+    ctx.check(ok, 'C09-R4', 'budget-stored-as-given', b,
+              good='ActorModel::max_crashes stores its parameter unchanged',
+              bad='ActorModel::max_crashes does not store its parameter as given (%s): the crash budget that is '
+                  'explored is not the configured one - fewer (or more) crash points than the user asked for are '
+                  'covered, depending on what the builder had seen when it was called' %
+                  [repr(b.val(x[1]['rv']['op'])) if x[1]['rv']['k'] == 'use' else x[1]['rv']['k'] for x in st])
+    others = []
+    for x in F.bodies.values():
+        if x is b or x.kind == 'Closure' and False:
+            continue
+        if 'actor::model' in x.path and 'test' not in x.path:
+            for (i, st_) in stores_to_field(x, 'max_crashes'):
+                others.append('%s@%s' % (x.path.split('::')[-1], st_.get('span', i)))
+    ctx.check(not others, 'C09-R4', 'budget-written-by-builder-only', b,
+              good='no other function of the actor model writes max_crashes',
+              bad='max_crashes is also written at %s' % sorted(others))
+
+
 def r4_budget(ctx, F):
     """actions(): the Crash offers, read in loop normal form (A12) so that an iterator chain and a
     `for` loop are the same program."""
@@ -354,6 +385,7 @@ def run(ctx):
         r3_silent(ctx, F)
     with ctx.rule('C09-R4', 'actions'):
         r4_budget(ctx, F)
+        r4_budget_is_configured_value(ctx, F)
     # "all other actors behave as before": what a live actor sends goes out (network, history hook) whether or not
     # its destination has crashed
     import c06
